@@ -57,6 +57,9 @@ def gen_one(rng):
         trip = lambda: [rng.choice([0, 1, 2]), rng.choice([0, 0, 1, 2]), rng.choice([0, 1])]
         k = rng.randrange(3)
         case["hooks"] = dict(before=trip() if k != 1 else None, after=trip() if k != 0 else None)
+        # hooks of different scenarios suspend for different numbers of polls (a scenario then starts while the hook of
+        # another one is suspended)
+        case["hooks"]["stagger"] = rng.random() < 0.6
     return case
 
 
@@ -94,7 +97,7 @@ def panic_result(case):
 
 
 def nmsgs(case):
-    return sum(sum(h[0] + h[2] for h in (case.get("hooks") or {}).values() if h) * len(case["scenarios"]) for _ in [0]) + sum(st["pre"] + st["post"] for sc in case["scenarios"] for st in sc["steps"])
+    return sum(sum(h[0] + h[2] for h in (case.get("hooks") or {}).values() if isinstance(h, list)) * len(case["scenarios"]) for _ in [0]) + sum(st["pre"] + st["post"] for sc in case["scenarios"] for st in sc["steps"])
 
 
 def nontrivial(case, res):
@@ -107,5 +110,5 @@ def describe(case, res):
             "retry=%s" % any(sc["retry"] for sc in case["scenarios"]), "outer_span=%s" % bool(case.get("outer")),
             "inner_span=%s" % any(st.get("inner") for sc in case["scenarios"] for st in sc["steps"]),
             "dunder=%s" % any(st.get("under") for sc in case["scenarios"] for st in sc["steps"]),
-            "filter=%s" % case.get("filter", "info"), "hooks=%s" % ("none" if not case.get("hooks") else "+".join(k for k in ("before", "after") if case["hooks"].get(k))), "which_after=%s" % bool(case.get("which_after")),
+            "filter=%s" % case.get("filter", "info"), "hooks=%s" % ("none" if not case.get("hooks") else "+".join(k for k in ("before", "after", "stagger") if case["hooks"].get(k))), "which_after=%s" % bool(case.get("which_after")),
             "burst=%s" % any(st["pre"] > 8 or st["post"] > 8 for sc in case["scenarios"] for st in sc["steps"])]
